@@ -52,6 +52,13 @@ func (s *Scope) leaf(r *core.Rand, t hast.Ty) *hast.Expr {
 	if s.Random && t == hast.TNum && r.Chance(2, 5) {
 		switch r.Intn(3) {
 		case 0:
+			if r.Chance(1, 6) {
+				// spans beyond 2^31 and 2^32 (another code path of the generator may serve them)
+				if r.Bool() {
+					return hast.Call("dice", hast.Num(r.Pick("4000000000", "2147483648", "9000000000000000")))
+				}
+				return hast.Call("random_range", hast.Neg(hast.Num("3000000000")), hast.Num(r.Pick("3000000000", "5")))
+			}
 			return hast.Call("dice", hast.Num(r.Pick("1", "2", "6", "20", "100")))
 		case 1:
 			lo := r.Range(-5, 5)
